@@ -623,8 +623,8 @@ class C01(Check):
             "pickle (protocols 2,5 / all), identity mapping, cached identity mapping, str, repr, "
             "dict insert / look-up, setattr attempt, and six library helpers that are handed the "
             "object (wrap_in_cse, make_common_subexpression, tag_common_subexpressions, substitute, "
-            "dependency analysis, flattened_sum)} up to depth 2 (thorough: depth 3 for the "
-            "built-in classes, four objects for the user classes), with "
+            "dependency analysis, flattened_sum)} up to depth 2 (thorough: depth 3 over the "
+            "operations other than the helpers for the built-in classes, four objects for the user classes), with "
             "the complete equality/hash matrix of all live and derived objects after every "
             "history. Everything under the default mode and under python -O. Non-trivial = pairs "
             "of distinct objects / histories of length >= 2; distinct = distinct pairs, histories.")
@@ -787,22 +787,31 @@ class C01(Check):
         n = len(fam_specs)
         menu = [(u, i) for i in range(n) for u in unary_ops(tier)]
         menu += [("eq", i, j) for i in range(n) for j in range(n) if i != j]
+        core = [op for op in menu if op[0] not in HELPER_OPS]
 
         def step(hist):
             r.evals += 1
             return run_history(fam_specs, hist)
-        ex = bfs(menu, step, 3 if deep else 2)
-        r.count("states", ex.states)
-        r.count("transitions", ex.transitions)
-        r.count("histories", ex.transitions)
-        r.count("max_depth", ex.max_depth)
-        r.keys.extend((item[1], k) for k in range(ex.states))
-        for hist, k, detail in ex.violations:
-            ops = ",".join(op[0] for op in hist)
-            sig = f"{k}|{item[1]}|{ops}"
-            if k == "mutable":
-                sig = f"{k}|{item[1].removeprefix('U:')}"     # a property of the class
-            r.fail(k, sig, f"family {item[1]}: {detail}", witness=item)
+        # depth 3 over the core operations; the library helpers join in up to depth 2
+        runs = [(core, 3), (menu, 2)] if deep else [(menu, 2)]
+        seen_sigs = set()
+        for mn, depth in runs:
+            ex = bfs(mn, step, depth)
+            r.count("states", ex.states)
+            r.count("transitions", ex.transitions)
+            r.count("histories", ex.transitions)
+            r.count("max_depth", ex.max_depth)
+            r.keys.extend((item[1], depth, k) for k in range(ex.states))
+            for hist, k, detail in ex.violations:
+                ops = ",".join(op[0] for op in hist)
+                sig = f"{k}|{item[1]}|{ops}"
+                if k == "mutable":
+                    # a property of the class
+                    sig = f"{k}|{item[1].removeprefix('UT:').removeprefix('U:')}"
+                if (sig, hist) in seen_sigs:
+                    continue
+                seen_sigs.add((sig, hist))
+                r.fail(k, sig, f"family {item[1]}: {detail}", witness=item)
         return r
 
 
